@@ -2829,3 +2829,18 @@ V('c01-merge-barrier-twin-isinstance', 'C01', 'R1.12', RESPINIT2,
 ''', '''                if resp.renumbers:
                     self._mergeable = {}
 ''', expect='silent')
+V('c07-revert-empty-text-fallback', 'C07', 'R7.16', IMAP,
+  '''                    resp = ResponseBad(cmd.tag,
+                                       msg or b'Authentication failed.')''',
+  '''                    resp = ResponseBad(cmd.tag, msg)''')
+V('c07-empty-constant-text', 'C07', 'R7.16', IMAP,
+  "resp = ResponseNo(cmd.tag, b'Operation timed out.',",
+  "resp = ResponseNo(cmd.tag, b'',")
+V('c07-text-twin-local-fallback', 'C07', 'R7.16', IMAP,
+  '''                    msg = bytes(str(exc), 'utf-8', 'surrogateescape')
+                    resp = ResponseBad(cmd.tag,
+                                       msg or b'Authentication failed.')''',
+  '''                    msg = bytes(str(exc), 'utf-8', 'surrogateescape')
+                    if not msg:
+                        msg = b'Authentication failed.'
+                    resp = ResponseBad(cmd.tag, msg)''', expect='silent')
